@@ -381,3 +381,45 @@ func (e *Exec) errorsAs(err Val, tp *PtrV, tt types.Type, depth int) bool {
 	}
 	return false
 }
+
+func init() {
+	bufOf := func(e *Exec, v Val) string {
+		k := v.(*PtrV).key()
+		if e.buffers == nil {
+			e.buffers = map[string]*Term{}
+		}
+		if _, ok := e.buffers[k]; !ok {
+			e.buffers[k] = mkStr("")
+		}
+		return k
+	}
+	stubs["(*bytes.Buffer).WriteByte"] = func(e *Exec, th *Thread, c *CallCtx, a []Val) StubRes {
+		k := bufOf(e, a[0])
+		b := a[1].(*Term)
+		if !b.IsConst() {
+			panic(pathEnd{kind: "unsupported", msg: "Buffer.WriteByte symbolic"})
+		}
+		e.buffers[k] = tStrConcat(e.buffers[k], mkStr(string([]byte{byte(b.U)})))
+		return ret(nilIface)
+	}
+	stubs["(*bytes.Buffer).Write"] = func(e *Exec, th *Thread, c *CallCtx, a []Val) StubRes {
+		k := bufOf(e, a[0])
+		p := a[1].(*BytesV)
+		e.buffers[k] = tStrConcat(e.buffers[k], p.S)
+		return ret(TupleV{tStrLen(p.S), nilIface})
+	}
+	stubs["(*bytes.Buffer).WriteString"] = func(e *Exec, th *Thread, c *CallCtx, a []Val) StubRes {
+		k := bufOf(e, a[0])
+		s := a[1].(*Term)
+		e.buffers[k] = tStrConcat(e.buffers[k], s)
+		return ret(TupleV{tStrLen(s), nilIface})
+	}
+	stubs["(*bytes.Buffer).Bytes"] = func(e *Exec, th *Thread, c *CallCtx, a []Val) StubRes {
+		k := bufOf(e, a[0])
+		return ret(bytesOf(e.buffers[k]))
+	}
+	stubs["(*bytes.Buffer).String"] = func(e *Exec, th *Thread, c *CallCtx, a []Val) StubRes {
+		k := bufOf(e, a[0])
+		return ret(e.buffers[k])
+	}
+}
